@@ -112,6 +112,16 @@ def gen_case(rng, tier, g):
                 args['quoting'] = rng.choice([0, 1, 2])
             if rng.random() < 0.3:
                 args['lineterminator'] = rng.choice(['\n', '\r\n', '\r'])
+            r = rng.random()
+            if r < 0.1:
+                # further csv.writer arguments travel through **csvargs
+                args['escapechar'] = '\\'
+                args['doublequote'] = False
+            elif r < 0.2:
+                args['escapechar'] = '\\'
+                args['quoting'] = 3          # QUOTE_NONE
+            elif r < 0.3 and fmt == 'csv':
+                args['dialect'] = rng.choice(['unix', 'excel-tab', 'excel'])
         elif fmt == 'pickle':
             args['write_header'] = rng.random() < 0.7
             args['protocol'] = rng.choice([-1, 0, 1, 2, 3, 4, 5, None])
